@@ -52,8 +52,9 @@ def gen_src(rng, opts):
         if rel not in tree: tree[rel] = D(); dirs.append(rel)
     nfiles = rng.range(1, 9)
     groups = 0
+    names = [n for n in NAMES if not opts.get("utf8_only") or "\udce9" not in n]
     for _ in range(nfiles):
-        parent = rng.pick(dirs); name = rng.pick(NAMES)
+        parent = rng.pick(dirs); name = rng.pick(names)
         rel = (parent + "/" if parent else "") + name
         if rel in tree: continue
         n = F(gen_data(rng, big=opts.get("big") and rng.chance(1, 2)), BASE_T * 10**9 + (10 + rng.below(1000)) * 10**9 + rng.pick([0, 0, 123_456_789, 999_999_999]))
